@@ -394,7 +394,7 @@ class HTTPApiDecoder:
             xml_data = io.BytesIO(data)
             rv = read_aas_xml_element(xml_data, cls.type_constructables_map[expect_type],
                                       stripped=stripped, failsafe=False)
-        except (KeyError, ValueError) as e:
+        except (KeyError, ValueError, TypeError) as e:
             # xml deserialization creates an error chain. since we only return one error, return the root cause
             f: BaseException = e
             while f.__cause__ is not None:
